@@ -376,6 +376,42 @@ pub fn png_odd_menu() -> Vec<Wrapper> {
             }),
         });
     }
+    // the 4-byte length field of the first / second IDAT chunk replaced by extreme values
+    for which in 0..2usize {
+        for val in [0xffff_ffffu32, 0xffff_fff8, 0xffff_fff4, 0xffff_fff3, 0x8000_0000, 0x7fff_ffff, 0x0001_0000] {
+            v.push(Wrapper {
+                kind: WKind::Png,
+                descr: format!("png IDAT chunk #{} length field replaced by {:#x}", which, val),
+                supported: false,
+                build: Arc::new(move |s| {
+                    let z = zlib_wrap([0x78, 0x9c], &s.stream, &s.plain);
+                    let cut = z.len() / 2;
+                    let mut f = png_wrap(&z, &[cut], true);
+                    // chunk #0 starts after the 8-byte signature and the 25-byte IHDR chunk
+                    let pos = if which == 0 { 33 } else { 33 + 12 + cut };
+                    f[pos..pos + 4].copy_from_slice(&val.to_be_bytes());
+                    f
+                }),
+            });
+        }
+    }
+    // a bare look-alike chunk header with an extreme length in front of 0 / 20 bytes
+    for val in [0xffff_ffffu32, 0xffff_fff8, 0xffff_fff4] {
+        for tail in [0usize, 4, 20] {
+            v.push(Wrapper {
+                kind: WKind::Png,
+                descr: format!("bare IDAT header with length {:#x} and {} bytes behind it", val, tail),
+                supported: false,
+                build: Arc::new(move |_s| {
+                    let mut f = b"ab".to_vec();
+                    f.extend_from_slice(&val.to_be_bytes());
+                    f.extend_from_slice(b"IDAT");
+                    f.extend((1..=tail as u8).map(|x| x));
+                    f
+                }),
+            });
+        }
+    }
     // an accepted zlib stream whose last four bytes are the length field of an IDAT chunk that follows
     // immediately (the IDAT look-back reaches into bytes that were already consumed)
     v.push(Wrapper {
